@@ -170,6 +170,29 @@ fn one_case(ctx: &Ctx, case: u64, l: &mut Local) {
             }
         }
     }
+    // MANY reserved members at once (256, 512, 65 536: counters of 8 / 16 bits wrap to zero there)
+    if case % 500 == 3 {
+        for n in [255usize, 256, 257, 512, 65_536] {
+            for name in ["_sd", "..."] {
+                let rows: Vec<Value> = (0..n).map(|i| { let mut m = serde_json::Map::new(); m.insert("i".into(), json!(i)); m.insert(name.into(), json!(["x"])); Value::Object(m) }).collect();
+                let mut planted = u.clone();
+                planted["rows#c13;"] = Value::Array(rows);
+                let st = &strategies[n % strategies.len()];
+                l.evals += 1;
+                l.count("position.many-at-once");
+                match api::issue(&mut issuer, &planted, st, None, false, FMTS[n % 2]) {
+                    Outcome::Err(_) => l.count(&format!("plant.{name}.refused")),
+                    other => l.violate(Violation {
+                        subcheck: "reserved-name-issued".into(),
+                        class: format!("{name} @ {n} rows at once"),
+                        observed: other.panic_signature().unwrap_or_else(|| "Ok (SD-JWT produced)".into()),
+                        case,
+                        detail: json!({"rows": n, "strategy": st.describe()}),
+                    }),
+                }
+            }
+        }
+    }
     // plants
     let mut vk = r.usize(nv);
     for t in 0..sites {
